@@ -190,7 +190,7 @@ Print Assumptions chain_first_success.
 
 Theorem chain_all_errors :
   forall (A : Type) subs,
-    subs <> [] -> Forall (fun p : unit -> result A => exists e, p tt = Err e) subs ->
+    Forall (fun p : unit -> result A => exists e, p tt = Err e) subs ->
     exists es, chain A subs = Err es.
 Proof. exact StrategiesProofs.chain_all_errors. Qed.
 Print Assumptions chain_all_errors.
@@ -202,18 +202,19 @@ Example chain_examples :
 Proof. exact (conj ex_chain ex_chain_errors). Qed.
 Print Assumptions chain_examples.
 
-(* "a chain returns an address or an error": false of the code as it is (Chain.ClientIP of an
-   empty chain returns (nil, nil)); true of every chain without an empty member *)
-Theorem chain_result_refuted :
-  ~ (forall rq subs, (exists a, resolve rq (RChain subs) = Ok a) \/ (exists e, resolve rq (RChain subs) = Err e)).
-Proof. exact ModelProofs.chain_result_refuted. Qed.
-Print Assumptions chain_result_refuted.
+(* a chain returns an address or an error - for every chain, the empty one and chains with
+   empty chains inside included (the defect fixed by a2abf08: Chain{}.ClientIP returned (nil, nil)) *)
+Theorem chain_result :
+  forall rq subs, (exists a, resolve rq (RChain subs) = Ok a) \/ (exists e, resolve rq (RChain subs) = Err e).
+Proof. exact ModelProofs.chain_result. Qed.
+Print Assumptions chain_result.
 
-Theorem chain_result_partial :
-  forall rq subs, wf_resolver (RChain subs) = true ->
-    (exists a, resolve rq (RChain subs) = Ok a) \/ (exists e, resolve rq (RChain subs) = Err e).
-Proof. exact ModelProofs.chain_result_partial. Qed.
-Print Assumptions chain_result_partial.
+Example chain_empty_examples :
+  resolve ex_rq (RChain []) = Err [EChainEmpty]
+  /\ resolve {| xff := []; forwarded := []; single := []; remote := S2B "1.2.3.4:1" |} (RChain [RChain []; RRemoteAddr])
+     = Ok (a4 1 2 3 4).
+Proof. exact (conj ex_chain_empty ex_chain_nested_empty). Qed.
+Print Assumptions chain_empty_examples.
 
 (* ================= the concrete model ================= *)
 
@@ -226,8 +227,14 @@ Theorem resolve_never_panics : forall rq r, resolve rq r <> Panic.
 Proof. exact ModelProofs.resolve_never_panics. Qed.
 Print Assumptions resolve_never_panics.
 
+(* ... and the outcome is an address or an error, never (nil, nil) *)
+Theorem resolve_result :
+  forall rq r, (exists a, resolve rq r = Ok a) \/ (exists e, resolve rq r = Err e).
+Proof. exact ModelProofs.resolve_result. Qed.
+Print Assumptions resolve_result.
+
 (* the model computes the specification function the correspondence files evaluate, for every
-   configuration the constructors accept that contains no empty chain *)
+   configuration the constructors accept (trusted count > 0) *)
 Theorem resolve_refines_spec :
   forall rq r, wf_resolver r = true -> resolve rq r = spec_resolve rq r.
 Proof. exact ModelProofs.resolve_refines_spec. Qed.
